@@ -4,6 +4,9 @@
 // arming is a no-op and the fault simply never fires.
 #include <cstdint>
 #include <cstdlib>
+#include <malloc.h>
+
+#include <atomic>
 #include <new>
 
 namespace sim
@@ -28,6 +31,12 @@ bool allocFailDisarm(uint64_t* seen)
 bool allocFailSupported()
 {
     return true;
+}
+// bytes currently allocated through operator new (C17: "traffic without open messages leaves the decoder's memory at its baseline")
+static std::atomic<int64_t> g_liveBytes{0};
+int64_t liveHeapBytes()
+{
+    return g_liveBytes.load(std::memory_order_relaxed);
 }
 static inline void tick()
 {
@@ -56,24 +65,40 @@ bool allocFailSupported()
 {
     return false;
 }
+int64_t liveHeapBytes()
+{
+    return -1;
+}
 #endif
 }  // namespace sim
 
 #if defined(SIM_VARIANT_ASAN)
+static inline void* account(void* p)
+{
+    if (p)
+        sim::g_liveBytes.fetch_add(static_cast<int64_t>(malloc_usable_size(p)), std::memory_order_relaxed);
+    return p;
+}
+static inline void simFree(void* p)
+{
+    if (p)
+        sim::g_liveBytes.fetch_sub(static_cast<int64_t>(malloc_usable_size(p)), std::memory_order_relaxed);
+    free(p);
+}
 static void* simAlloc(size_t n)
 {
     sim::tick();
     void* p = malloc(n ? n : 1);
     if (!p)
         throw std::bad_alloc();
-    return p;
+    return account(p);
 }
 static void* simAllocAligned(size_t n, size_t a)
 {
     void* p = aligned_alloc(a, (n + a - 1) / a * a);
     if (!p)
         throw std::bad_alloc();
-    return p;
+    return account(p);
 }
 void* operator new(size_t n)
 {
@@ -85,11 +110,11 @@ void* operator new[](size_t n)
 }
 void* operator new(size_t n, const std::nothrow_t&) noexcept
 {
-    return malloc(n ? n : 1);
+    return account(malloc(n ? n : 1));
 }
 void* operator new[](size_t n, const std::nothrow_t&) noexcept
 {
-    return malloc(n ? n : 1);
+    return account(malloc(n ? n : 1));
 }
 void* operator new(size_t n, std::align_val_t a)
 {
@@ -103,58 +128,58 @@ void* operator new[](size_t n, std::align_val_t a)
 }
 void* operator new(size_t n, std::align_val_t a, const std::nothrow_t&) noexcept
 {
-    return aligned_alloc(static_cast<size_t>(a), (n + static_cast<size_t>(a) - 1) / static_cast<size_t>(a) * static_cast<size_t>(a));
+    return account(aligned_alloc(static_cast<size_t>(a), (n + static_cast<size_t>(a) - 1) / static_cast<size_t>(a) * static_cast<size_t>(a)));
 }
 void* operator new[](size_t n, std::align_val_t a, const std::nothrow_t&) noexcept
 {
-    return aligned_alloc(static_cast<size_t>(a), (n + static_cast<size_t>(a) - 1) / static_cast<size_t>(a) * static_cast<size_t>(a));
+    return account(aligned_alloc(static_cast<size_t>(a), (n + static_cast<size_t>(a) - 1) / static_cast<size_t>(a) * static_cast<size_t>(a)));
 }
 void operator delete(void* p) noexcept
 {
-    free(p);
+    simFree(p);
 }
 void operator delete[](void* p) noexcept
 {
-    free(p);
+    simFree(p);
 }
 void operator delete(void* p, size_t) noexcept
 {
-    free(p);
+    simFree(p);
 }
 void operator delete[](void* p, size_t) noexcept
 {
-    free(p);
+    simFree(p);
 }
 void operator delete(void* p, const std::nothrow_t&) noexcept
 {
-    free(p);
+    simFree(p);
 }
 void operator delete[](void* p, const std::nothrow_t&) noexcept
 {
-    free(p);
+    simFree(p);
 }
 void operator delete(void* p, std::align_val_t) noexcept
 {
-    free(p);
+    simFree(p);
 }
 void operator delete[](void* p, std::align_val_t) noexcept
 {
-    free(p);
+    simFree(p);
 }
 void operator delete(void* p, size_t, std::align_val_t) noexcept
 {
-    free(p);
+    simFree(p);
 }
 void operator delete[](void* p, size_t, std::align_val_t) noexcept
 {
-    free(p);
+    simFree(p);
 }
 void operator delete(void* p, std::align_val_t, const std::nothrow_t&) noexcept
 {
-    free(p);
+    simFree(p);
 }
 void operator delete[](void* p, std::align_val_t, const std::nothrow_t&) noexcept
 {
-    free(p);
+    simFree(p);
 }
 #endif
